@@ -8,6 +8,8 @@
 //!     noise=<n>           before anything else: n rounds of unrelated allocation in a throw-away Context
 //!     collect=0|1         force a collection after the noise
 //!     gc=<n>              boa_gc::verif::set_stress(n) while the program runs (0 = off)
+//!     kind=tree,realms=K  realm-mechanism probe: K realms (globals __gid, T; Array.prototype.__rid), natives T.nat[k]/T.natc[k](ops, ...);
+//!                         aux = definitions `k|src` separated by U+001E evaluated in realm k; the program runs in realm 0 between two host probes
 //!     leak=1              SELF-TEST of the oracle only: deliberately break isolation (aux and program share the context/realm)
 //! Output:  <id> \t ok|panic \t <trace: JSON array of print lines> \t <completion>
 //! Host object `$iso` (per realm): createRealm() -> the new realm's $iso; evalScript(src); global; gc();
@@ -115,6 +117,123 @@ fn install_host(ctx: &mut Context) -> JsObject {
     iso
 }
 
+// ---------------------------------------------------------------------------------------------
+// realm-mechanism probe (kind=tree): see coq/C20/Deep_Realm_C20.v
+thread_local! {
+    static REALMS: std::cell::RefCell<Vec<boa_engine::realm::Realm>> = const { std::cell::RefCell::new(Vec::new()) };
+}
+
+fn current_gid(ctx: &mut Context) -> String {
+    let g = ctx.global_object();
+    match g.get(js_string!("__gid"), ctx) {
+        Ok(v) => v.display().to_string(),
+        Err(_) => "?".to_string(),
+    }
+}
+
+fn log_line(s: String) {
+    bh::TRACE.with(|t| t.borrow_mut().push(bh::json_str(&s)));
+}
+
+/// T.nat[k](ops, a0, a1, ...): a native function of realm k interpreting `ops`:
+/// p probe | e<k> enter_realm(k) without restoring | c<i> call a_i | y<i> call a_i, swallow its error | s<i> eval a_i |
+/// z<i> eval a_i, swallow | r create_realm | t throw
+fn tree_invoke(_this: &JsValue, args: &[JsValue], ctx: &mut Context) -> JsResult<JsValue> {
+    let ops = args.first().and_then(JsValue::as_string).map(|s| s.to_std_string_escaped()).unwrap_or_default();
+    for tok in ops.split(' ').filter(|t| !t.is_empty()) {
+        let (op, num) = tok.split_at(1);
+        let n: usize = num.parse().unwrap_or(0);
+        match op {
+            "p" => {
+                let g = current_gid(ctx);
+                log_line(format!("P {g}"));
+            }
+            "e" => {
+                let r = REALMS.with(|v| v.borrow().get(n).cloned());
+                if let Some(r) = r {
+                    let _ = ctx.enter_realm(r);
+                }
+            }
+            "c" | "y" => {
+                let f = args.get(1 + n).and_then(JsValue::as_object);
+                let res = match f {
+                    Some(f) => f.call(&JsValue::undefined(), &[], ctx),
+                    None => Ok(JsValue::undefined()),
+                };
+                if op == "c" {
+                    res?;
+                } else if res.is_err() {
+                    log_line("C".to_string());
+                }
+            }
+            "s" | "z" => {
+                let src = args.get(1 + n).and_then(JsValue::as_string).map(|s| s.to_std_string_escaped()).unwrap_or_default();
+                let res = ctx.eval(Source::from_bytes(src.as_bytes()));
+                if op == "s" {
+                    res?;
+                } else if res.is_err() {
+                    log_line("C".to_string());
+                }
+            }
+            "r" => {
+                let _ = ctx.create_realm()?;
+            }
+            "t" => {
+                return Err(boa_engine::JsNativeError::typ().with_message("nat").into());
+            }
+            _ => {}
+        }
+    }
+    Ok(JsValue::undefined())
+}
+
+fn run_tree(nrealms: usize, prog: &str, aux: &str) -> (String, String) {
+    use boa_engine::object::FunctionObjectBuilder;
+    let mut ctx = Context::default();
+    let mut realms = vec![ctx.realm().clone()];
+    for _ in 1..nrealms.max(1) {
+        realms.push(ctx.create_realm().expect("create_realm"));
+    }
+    REALMS.with(|v| *v.borrow_mut() = realms.clone());
+    bh::install_print(&mut ctx);
+    let shared = ctx.eval(Source::from_bytes(b"({nat:[],natc:[]})")).expect("shared table");
+    for (k, r) in realms.iter().enumerate() {
+        let old = ctx.enter_realm(r.clone());
+        if k > 0 {
+            bh::install_print(&mut ctx);
+        }
+        let f = FunctionObjectBuilder::new(ctx.realm(), NativeFunction::from_fn_ptr(tree_invoke)).name(js_string!("nat")).length(1).build();
+        let fc = FunctionObjectBuilder::new(ctx.realm(), NativeFunction::from_fn_ptr(tree_invoke)).name(js_string!("natc")).length(1).constructor(true).build();
+        let _ = ctx.register_global_property(js_string!("T"), shared.clone(), Attribute::all());
+        let _ = ctx.register_global_property(js_string!("__gid"), k as i32, Attribute::all());
+        let _ = ctx.register_global_property(js_string!("__nat"), f, Attribute::all());
+        let _ = ctx.register_global_property(js_string!("__natc"), fc, Attribute::all());
+        let _ = ctx.eval(Source::from_bytes(b"Array.prototype.__rid=__gid;T.nat[__gid]=__nat;T.natc[__gid]=__natc;"));
+        ctx.enter_realm(old);
+    }
+    for def in aux.split('\u{1e}').filter(|d| !d.is_empty()) {
+        if let Some((k, src)) = def.split_once('|') {
+            let k: usize = k.parse().unwrap_or(0);
+            let old = ctx.enter_realm(realms[k.min(realms.len() - 1)].clone());
+            let _ = ctx.eval(Source::from_bytes(src.as_bytes()));
+            ctx.enter_realm(old);
+        }
+    }
+    let _ = bh::take_trace();
+    let g = current_gid(&mut ctx);
+    log_line(format!("P {g}"));
+    let r = eval_in(&mut ctx, prog);
+    if r.is_err() {
+        log_line("C".to_string());
+    }
+    let g = current_gid(&mut ctx);
+    log_line(format!("P {g}"));
+    let comp = completion(r, &mut ctx);
+    let trace = bh::take_trace();
+    REALMS.with(|v| v.borrow_mut().clear());
+    (bh::json_list(&trace), comp)
+}
+
 struct Mode {
     kind: String,
     noise: usize,
@@ -122,10 +241,11 @@ struct Mode {
     gc: usize,
     drop_first: bool,
     leak: bool,
+    realms: usize,
 }
 
 fn parse_mode(s: &str) -> Mode {
-    let mut m = Mode { kind: "fresh".into(), noise: 0, collect: false, gc: 0, drop_first: false, leak: false };
+    let mut m = Mode { kind: "fresh".into(), noise: 0, collect: false, gc: 0, drop_first: false, leak: false, realms: 2 };
     for kv in s.split(',') {
         if let Some((k, v)) = kv.split_once('=') {
             match k {
@@ -135,6 +255,7 @@ fn parse_mode(s: &str) -> Mode {
                 "gc" => m.gc = v.parse().unwrap_or(0),
                 "drop" => m.drop_first = v == "1",
                 "leak" => m.leak = v == "1",
+                "realms" => m.realms = v.parse().unwrap_or(2),
                 _ => {}
             }
         }
@@ -180,6 +301,9 @@ fn run_case(mode: &Mode, prog: &str, aux: &str) -> (String, String) {
     #[cfg(boa_verif)]
     boa_gc::verif::set_stress(0);
     noise(mode.noise, mode.collect);
+    if mode.kind == "tree" {
+        return run_tree(mode.realms, prog, aux);
+    }
     let mut keep_alive: Option<Context> = None;
     let mut ctx;
     match mode.kind.as_str() {
